@@ -83,7 +83,9 @@ def is_test_file(file_path: Path | None) -> bool:
     """
     if not file_path:
         return False
-    return file_path.name.startswith("test_") or file_path.name.endswith("_test.py")
+    # The extension decides the language in any letter case: calc_test.PY is calc_test.py
+    is_test_suffixed = file_path.stem.endswith("_test") and file_path.suffix.lower() == ".py"
+    return file_path.name.startswith("test_") or is_test_suffixed
 
 
 def is_constant_definition(node: ast.Constant, parent: ast.AST | None) -> bool:
